@@ -153,6 +153,10 @@ def main(argv=None):
 
 def report(prop, args, seed, meta, results, static_results, bounded_results, wall):
     known = load_known()
+    # engine self-checks (executor versus CPython) are neither obligations nor verdicts: a failure is a checker crash
+    engine_checks = [s for s in static_results if s.get("engine")]
+    static_results = [s for s in static_results if not s.get("engine")]
+    engine_failed = [s for s in engine_checks if not s["ok"]]
     crashes = [r for r in results if r["status"] == "crash"]
     undecided = [r for r in results if r["status"] == "undecided"]
     agreement_failed = [(r, f) for r in results for f in r["agreement"]["failed"]]
@@ -242,7 +246,7 @@ def report(prop, args, seed, meta, results, static_results, bounded_results, wal
     code = 0
     if violations_out:
         code = 1
-    if crashes or agreement_failed:
+    if crashes or agreement_failed or engine_failed:
         code = 3 if code == 0 else code
     elif (undecided or unknown or static_undecided) and code == 0:
         code = 2
@@ -293,7 +297,8 @@ def report(prop, args, seed, meta, results, static_results, bounded_results, wal
             "canaries_refuted": sum(r["canaries_refuted"] for r in results),
             "reachability_checks": sum(r["reach_checked"] for r in results),
             "agreement_runs": sum(r["agreement"]["runs"] for r in results),
-            "agreement_failures": len(agreement_failed),
+            "agreement_failures": len(agreement_failed) + len(engine_failed),
+            "executor_vs_cpython_crosschecks": {"functions": len(engine_checks), "failed": len(engine_failed)},
             "nonzero_assumptions": sum(r["nonzero_assumptions"] for r in results),
             "infeasible_paths_dropped": sum(r.get("infeasible_paths_dropped", 0) for r in results),
             "reachability_unknown": sum(r.get("reach_unknown", 0) for r in results),
@@ -331,6 +336,8 @@ def report(prop, args, seed, meta, results, static_results, bounded_results, wal
         print(f"UNDECIDED obligation {o['name']}[{o['case']}] path={o['path']}: {o['reason']}")
     for s in static_undecided:
         print(f"UNDECIDED lemma {prop}.{s['contract']}.{s['name']}: {s.get('detail')}")
+    for s_ in engine_failed:
+        print(f"ENGINE-DISAGREEMENT {prop}.{s_['contract']} {s_.get('function')}: {s_.get('detail')}")
     for r, f in agreement_failed[:10]:
         print(f"ENGINE-DISAGREEMENT {r.get('contract')}[{r.get('case')}]: {f['detail']} env={f.get('env')}")
     for line in known_lines:
